@@ -2,6 +2,9 @@
 
 Every header-producing RequestHandler API is driven inside a real `HTTPServer` connection over the fake
 transport (`POST / HTTP/1.1`), and the bytes handed to the stream are captured right after `finish()`.
+The connection-level API is driven as well (cases with a "raw" key): a plain `HTTPServer(request_callback)` whose
+callback calls `request.connection.write_headers(ResponseStartLine(...), HTTPHeaders)` itself, and a WSGI
+application behind `tornado.wsgi.WSGIContainer` — there nothing validates the reason before `write_headers`.
 """
 import http.client, itertools, logging, re, warnings
 from core.wire import atom, enc, line, parse_reply, Atom
@@ -19,6 +22,9 @@ THEOREMS = [
     "TornadoModel.C07.set_header_stores",
     "TornadoModel.C07.checkReason_clean",
     "TornadoModel.C07.redirect_location_clean",
+    "TornadoModel.C07.raw_exact_lines",
+    "TornadoModel.C07.wsgi_exact_lines",
+    "TornadoModel.C07.raw_reason_clean",
     "TornadoModel.C07.old_guard_lets_nul_through",
     "TornadoModel.C07.old_guard_no_crlf",
 ]
@@ -34,9 +40,14 @@ ASSUMPTIONS = [
     "status codes come from a fixed list (the model tabulates http.client.responses only for those)",
     "header values are str, bytes or int (datetime values are formatted by email.utils and are not modelled)",
     "redirect() is the last call of a handler",
+    "connection-level cases (request callback -> connection.write_headers, WSGIContainer): header names and values are str; the "
+    "callback always sets Content-Length: 0 itself and the WSGI app returns an empty body (so write_headers adds no "
+    "Transfer-Encoding / Connection header); the WSGI status string is '%d %s' % (code, reason)",
 ]
 RULE = ("single API calls with every byte 0-255 (and 8 code points > 0xFF) embedded at start/middle/end of every "
-        "name/value/reason/url/cookie field, plus random multi-call handlers over an alphabet rich in controls and "
+        "name/value/reason/url/cookie field of a RequestHandler AND of the connection-level API (request callback calling "
+        "connection.write_headers(ResponseStartLine(..), HTTPHeaders) directly; WSGI app behind WSGIContainer: reason, "
+        "header name, header value via h[n]=v / h.add), plus random multi-call handlers and random connection-level responses over an alphabet rich in controls and "
         "separators; non-trivial = the call carries a byte outside [0-9A-Za-z] in an application-controlled field or "
         "the handler makes >= 3 calls; distinct by canonical JSON")
 EXHAUSTIVE = {"quick": True, "thorough": True}
@@ -49,6 +60,8 @@ CLAUSES = {
         "no_ctl_on_wire + nul_not_in_wire (for every call sequence; holds for the tree with the D9 fix; "
         "old_guard_lets_nul_through refutes it for the guard as found, old_guard_no_crlf is the part that held)",
     "every header-producing API (str and bytes values, reason, cookie fields, redirect url)": "tie: complete enumeration of single bytes per field",
+    "status reason supplied through the connection-level API (HTTPConnection.write_headers called by a request callback, WSGIContainer)":
+        "raw_exact_lines + wsgi_exact_lines + raw_reason_clean (the unvalidated reason is stopped by the guard over the start line)",
 }
 PARALLEL = True
 CASE_TIMEOUT = 90     # the first case of a worker pays for importing tornado from source (-B) on a loaded machine
@@ -261,7 +274,81 @@ def serve(script):
     return res
 
 
+def _raw_env():
+    """second server of the per-process environment: a plain `HTTPServer(request_callback)` whose callback either
+    calls `request.connection.write_headers(ResponseStartLine(...), HTTPHeaders)` itself or is a `WSGIContainer`."""
+    env = _env()
+    if "rawsrv" in env:
+        return env
+    import tornado.httpserver, tornado.httputil, tornado.wsgi, tornado.ioloop
+    state = env["rawstate"] = {}
+
+    def wsgi_app(environ, start_response):
+        raw = state["raw"]
+        start_response("%d %s" % (raw["code"], raw["reason"]), [(n, v) for _, n, v in raw["hdrs"]])
+        return []
+
+    container = tornado.wsgi.WSGIContainer(wsgi_app)
+
+    async def run_wsgi(request):
+        res = state["res"]
+        try:
+            await container.handle_request(request)
+            res["finish"] = "ok"
+        except Exception as e:
+            res["finish"] = _exc(e)
+        res["wire"] = bytes(state["stream"].written).hex()
+
+    def callback(request):
+        raw, res = state["raw"], state["res"]
+        if raw["via"] == "wsgi":
+            # what WSGIContainer.__call__ does, with the outcome of handle_request observed
+            tornado.ioloop.IOLoop.current().spawn_callback(run_wsgi, request)
+            return
+        h = tornado.httputil.HTTPHeaders()
+        for how, n, v in raw["hdrs"]:
+            try:
+                if how == "set":
+                    h[n] = v
+                else:
+                    h.add(n, v)
+                res["outs"].append("ok")
+            except Exception as e:
+                res["outs"].append(_exc(e))
+        try:
+            request.connection.write_headers(tornado.httputil.ResponseStartLine("HTTP/1.1", raw["code"], raw["reason"]), h)
+            request.connection.finish()
+            res["finish"] = "ok"
+        except Exception as e:
+            res["finish"] = _exc(e)
+        res["wire"] = bytes(state["stream"].written).hex()
+
+    env["rawsrv"] = tornado.httpserver.HTTPServer(callback)
+    return env
+
+
+def serve_raw(raw):
+    """one response produced WITHOUT a RequestHandler; same result shape as `serve`."""
+    env = _raw_env()
+    lp, state = env["lp"], env["rawstate"]
+    state["raw"] = raw
+    state["res"] = res = {"outs": [], "dates": [], "signed": []}
+    state["stream"] = s = env["FakeStream"](lp.io_loop)
+    env["rawsrv"].handle_stream(s, ("1.2.3.4", 5))
+    lp.drain()
+    s.feed(b"POST / HTTP/1.1\r\nHost: x\r\nContent-Length: 0\r\n\r\n")
+    lp.drain()
+    if "wire" not in res:
+        res["finish"] = res.get("finish", "Uncaught:callback-did-not-finish")
+        res["wire"] = bytes(s.written).hex()
+    s.close()
+    lp.drain()
+    return res
+
+
 def run_impl(case):
+    if "raw" in case:
+        return serve_raw(case["raw"])
     return serve(case["ops"])
 
 
@@ -295,9 +382,19 @@ def op_wire(op, dates, signed):
     raise AssertionError(op)
 
 
+def _server_default():
+    import tornado
+    return "TornadoServer/%s" % tornado.version
+
+
 def model_requests(case, impl):
     if "harness_exc" in impl:
         return []
+    if "raw" in case:
+        raw = case["raw"]
+        if raw["via"] == "wsgi":
+            return [line(ID, "wsgi", _server_default(), CTYPE, raw["code"], raw["reason"], [[n, v] for _, n, v in raw["hdrs"]])]
+        return [line(ID, "raw", raw["code"], raw["reason"], [[atom(how), n, v] for how, n, v in raw["hdrs"]])]
     ops = [op_wire(op, impl["dates"][i] if i < len(impl["dates"]) else [], impl["signed"][i] if i < len(impl["signed"]) else [])
            for i, op in enumerate(case["ops"])]
     return [line(ID, "run", SERVER, CTYPE, DATE, ops)]
@@ -397,6 +494,8 @@ def spec_violation(case, impl, replies):
         return "ctl-on-wire: byte(s) %s inside a header line: %r" % (bad, [l for l in lines if any(b in (0, 10, 13) for b in l)][:2])
     if rest:
         return "body-present: %d bytes after the header block: %r" % (len(rest), rest[:80])
+    if "raw" in case:
+        return raw_violation(case["raw"], impl, lines)
     code, reasons, want, cookies = intended(case, impl)
     ok_status = False
     for r in reasons:
@@ -430,6 +529,47 @@ def spec_violation(case, impl, replies):
     for n in names:
         if n not in cookies or names.count(n) > 1:
             return "lines-differ: unexpected Set-Cookie line for %r" % n
+    return None
+
+
+def raw_violation(raw, impl, lines):
+    """connection-level API: the start line must be `HTTP/1.1 <code> <reason exactly as given>`; every header the
+    application put successfully accounts for exactly one line; what is left may only be the three defaults the
+    WSGI container adds on its own (at most once each, and only when the application did not give that header)."""
+    try:
+        want_status = ("HTTP/1.1 %d %s" % (raw["code"], raw["reason"])).encode("utf-8")
+    except UnicodeEncodeError:
+        want_status = None
+    if not lines or lines[0] != want_status:
+        return "status-line-differs: %r, intended %r" % (lines[:1], want_status)
+    hdr = {}
+    outs = impl["outs"] if raw["via"] == "conn" else ["ok"] * len(raw["hdrs"])
+    for (how, n, v), out in zip(raw["hdrs"], outs):
+        if out != "ok":
+            continue
+        if how == "set":
+            hdr[n.casefold()] = [n, [v]]
+        else:
+            hdr.setdefault(n.casefold(), [n, []])[1].append(v)
+    left = [(n, v) for n, vs in hdr.values() for v in vs]
+    want = list(left)
+    extra = []
+    for l in (x.decode("latin1") for x in lines[1:]):
+        for i, (n, v) in enumerate(left):
+            if l.endswith(": " + v) and l[: len(l) - len(v) - 2].casefold() == n.casefold():
+                del left[i]
+                break
+        else:
+            extra.append(l)
+    if left:
+        return "lines-differ: intended header(s) %r missing from the wire" % (left,)
+    defaults = {}
+    if raw["via"] == "wsgi":
+        defaults = {"content-length": "Content-Length: 0", "content-type": "Content-Type: " + CTYPE, "server": "Server: " + _server_default()}
+    for l in extra:
+        k = l.split(":", 1)[0].lower()
+        if defaults.get(k) != l or extra.count(l) > 1 or k in hdr:
+            return "lines-differ: header line %r on the wire was not asked for (intended %r)" % (l, want)
     return None
 
 
@@ -526,6 +666,63 @@ def enum_cases(fields_str=FIELDS_STR, fields_bytes=FIELDS_BYTES, cps=None, posit
                 continue
             for pos in positions:
                 yield field_case(f, bytes([b]), pos)
+
+
+# --- connection-level API (no RequestHandler in between): request callback -> write_headers, WSGIContainer
+RAW_FIELDS = ["conn.reason", "conn.set.name", "conn.set.value", "conn.add.name", "conn.add.value",
+              "wsgi.reason", "wsgi.name", "wsgi.value"]
+CL0 = ["set", "Content-Length", "0"]     # the callback always frames its (empty) body itself
+
+
+def raw(via, code, reason, hdrs):
+    return {"via": via, "code": code, "reason": reason, "hdrs": ([CL0] if via == "conn" else []) + hdrs}
+
+
+def raw_field_case(field, ch, pos):
+    """one response written through the connection-level API whose only oddity is `ch` at `pos` of `field`."""
+    e = lambda base: _embed(base, ch, pos)
+    if field == "conn.reason":
+        r = raw("conn", 200, e("OK"), [["add", "X-App", "yes"]])
+    elif field == "conn.set.name":
+        r = raw("conn", 200, "OK", [["set", e("X-Ab"), "v"]])
+    elif field == "conn.set.value":
+        r = raw("conn", 404, "Not Found", [["set", "X-A", e("val")]])
+    elif field == "conn.add.name":
+        r = raw("conn", 200, "OK", [["add", e("X-Ab"), "v"]])
+    elif field == "conn.add.value":
+        r = raw("conn", 200, "OK", [["add", "X-A", "first"], ["add", "x-a", e("val")]])
+    elif field == "wsgi.reason":
+        r = raw("wsgi", 200, e("OK"), [["add", "X-App", "yes"]])
+    elif field == "wsgi.name":
+        r = raw("wsgi", 200, "OK", [["add", e("X-Ab"), "v"]])
+    elif field == "wsgi.value":
+        r = raw("wsgi", 201, "Created", [["add", "X-A", e("val")], ["add", "Server", "mine"]])
+    else:
+        raise AssertionError(field)
+    return {"raw": r, "field": field, "cp": ord(ch[0]), "pos": pos}
+
+
+def raw_enum_cases(cps=None, positions=(0, 1, 2)):
+    for f in RAW_FIELDS:
+        for cp in (cps if cps is not None else list(range(256)) + WIDE):
+            for pos in positions:
+                yield raw_field_case(f, chr(cp), pos)
+
+
+PAYLOADS = ["OK\r\nSet-Cookie: sid=evil", "OK\r\n\r\nHTTP/1.1 200 OK\r\nContent-Length: 5\r\n\r\nowned", "O\x00K",
+            "OK\rX-Injected: 1", "OK\nX-Injected: 1", "OK\r\n", "\r\n", "\n", "\r", "\x00", "OK\r\n\r\n", "OK\n\n<html>",
+            "", " ", " OK", "OK ", "Not Found", "a\tb", "é", "€", "\ud800", "x<y", "\x7f", "\x85", "\u2028"]
+
+
+def random_raw_case(rng):
+    via = rng.choice(["conn", "wsgi"])
+    k = rng.random()
+    reason = rng.choice(PAYLOADS) if k < 0.45 else (rng.choice(["OK", "Fine", "Not Found"]) if k < 0.6 else _rs(rng))
+    hdrs = []
+    for _ in range(rng.randint(0, 4)):
+        v = rng.choice(["v", "a b", "x,y", "", "é", "v\r\nX-Injected: 1", " v", "v\t", "€"]) if rng.random() < 0.6 else _rs(rng)
+        hdrs.append(["add" if via == "wsgi" or rng.random() < 0.5 else "set", _rname(rng), v])
+    return {"raw": raw(via, rng.choice(CODES), reason, hdrs), "field": "random-raw"}
 
 
 ALPHA = ["\r", "\n", "\r\n", "\x00", "\t", " ", ";", ",", "=", ":", "\"", "\\", "\x7f", "\x1f", "\x0b", "<", "-",
@@ -628,9 +825,23 @@ def gen_cases(rng, tier):
     warm()
     if tier == "quick":
         yield from enum_cases()
+        yield from raw_enum_cases()
         n = 3000
     elif tier == "thorough":
         yield from enum_cases()
+        yield from raw_enum_cases()
+        for f in ("conn.reason", "wsgi.reason", "conn.set.name", "conn.set.value", "wsgi.value"):
+            for code in CODES:
+                for pl in PAYLOADS:
+                    c = raw_field_case(f, "m", 1)
+                    c["raw"]["code"] = code
+                    if f.endswith("reason"):
+                        c["raw"]["reason"] = pl
+                    else:
+                        c["raw"]["hdrs"][-1][1 if f.endswith("name") else 2] = "X-" + pl if f.endswith("name") else pl
+                    c.update(field="random-raw")
+                    del c["cp"], c["pos"]
+                    yield c
         # pairs of interesting bytes in the same field
         hot = [0, 9, 10, 13, 32, 34, 59, 61, 92, 127, 128, 255, 0x100]
         for f in FIELDS_STR:
@@ -639,11 +850,14 @@ def gen_cases(rng, tier):
                     continue
                 c = field_case(f, chr(a) + "m" + chr(b), 1)
                 yield c
+        for f in RAW_FIELDS:
+            for a, b in itertools.product(hot, repeat=2):
+                yield raw_field_case(f, chr(a) + "m" + chr(b), 1)
         n = 60000
     else:
         n = 4000
-    for _ in range(n):
-        yield random_case(rng)
+    for i in range(n):
+        yield random_raw_case(rng) if i % 5 == 4 else random_case(rng)
 
 
 # ------------------------------------------------------------------------------------------------ bookkeeping
@@ -671,6 +885,8 @@ def _cls(cp):
 
 
 def nontrivial(case, impl):
+    if case.get("field") == "random-raw":
+        return True
     if case.get("field") != "random":
         cp = case["cp"]
         return not (48 <= cp <= 57 or 65 <= cp <= 90 or 97 <= cp <= 122)
@@ -679,7 +895,14 @@ def nontrivial(case, impl):
 
 def stats(case, impl):
     out = ["field:" + case.get("field", "?"), "finish:" + impl["finish"]]
-    for op, o in zip(case["ops"], impl["outs"]):
+    if "raw" in case:
+        r = case["raw"]
+        out.append("raw:%s:%s" % (r["via"], impl["finish"]))
+        if any(c in r["reason"] for c in "\r\n\x00"):
+            out.append("raw:%s:ctl-in-reason:%s" % (r["via"], "sent" if impl["wire"] else "rejected"))
+        for (how, _, _), o in zip(r["hdrs"], impl["outs"]):
+            out.append("call:h.%s:%s" % (how, o))
+    for op, o in zip(case.get("ops", []), impl["outs"]):
         out.append("call:%s:%s" % (op[0] if op[0] != "setCookie" else "cookie-" + op[1]["via"], o))
     if "cp" in case:
         out.append("class:%s:%s" % (_cls(case["cp"]), "sent" if impl["wire"] else "rejected"))
@@ -689,13 +912,37 @@ def stats(case, impl):
 def signature(case, impl, why):
     cat = why.split(":", 1)[0]
     f = case.get("field", "random")
+    if f == "random-raw" or ("raw" in case and "cp" not in case):
+        r = case["raw"]
+        ctl = "+".join(n for n, c in (("CR", "\r"), ("LF", "\n"), ("NUL", "\x00")) if c in r["reason"]) or "plain"
+        return "random-raw/%s/reason-%s/%s" % (r["via"], ctl, cat)
     if f == "random":
         kinds = sorted({op[0] for op in case["ops"]})
         return "random/%s/%s" % ("+".join(kinds), cat)
     return "%s/%s/%s" % (f, _cls(case["cp"]), cat)
 
 
+def _shrink_raw(case):
+    r = case["raw"]
+    fixed = 1 if r["via"] == "conn" else 0
+    for i in range(fixed, len(r["hdrs"])):
+        yield {**case, "raw": {**r, "hdrs": r["hdrs"][:i] + r["hdrs"][i + 1:]}}
+    if r["code"] != 200:
+        yield {**case, "raw": {**r, "code": 200}}
+    for j in range(len(r["reason"])):
+        if len(r["reason"]) > 1:
+            yield {**case, "raw": {**r, "reason": r["reason"][:j] + r["reason"][j + 1:]}}
+    for i in range(fixed, len(r["hdrs"])):
+        how, n, v = r["hdrs"][i]
+        for j in range(len(v)):
+            yield {**case, "raw": {**r, "hdrs": r["hdrs"][:i] + [[how, n, v[:j] + v[j + 1:]]] + r["hdrs"][i + 1:]}}
+
+
 def shrink(case):
+    if "raw" in case:
+        if "cp" not in case:
+            yield from _shrink_raw(case)
+        return
     ops = case["ops"]
     if len(ops) > 1:
         for i in range(len(ops)):
@@ -718,6 +965,12 @@ def shrink(case):
 
 
 def neighbours(case):
+    if "cp" in case and case.get("field") in RAW_FIELDS:
+        for pos in (0, 1, 2):
+            for d in (-1, 1):
+                if 0 <= case["cp"] + d < 256:
+                    yield raw_field_case(case["field"], chr(case["cp"] + d), pos)
+        return
     if "cp" in case and case.get("field") in FIELDS_STR + FIELDS_BYTES:
         for pos in (0, 1, 2):
             for d in (-1, 1):
